@@ -66,9 +66,11 @@ set_config, get_config, regist_config = create_config(
 @contextmanager
 def temp_config(name, var):
     tmp = get_config(name)
-    set_config(name, var)
-    yield var
-    set_config(name, tmp)
+    try:
+        set_config(name, var)
+        yield var
+    finally:
+        set_config(name, tmp)
 
 
 using_amplitude = lambda var: temp_config("amp", var)
